@@ -91,12 +91,40 @@ off64_t _GD_GzipSeek(struct gd_raw_file_* file, off64_t offset,
 
   offset *= GD_SIZE(data_type);
 
+  if (mode & GD_FILE_WRITE) {
+    /* Only forward seeks are possible when writing: pad with zeroes.  This is
+     * done explicitly, since the zero fill gzseek() defers may be lost when
+     * nothing else is written before the stream is closed. */
+    static const char zero[1024];
+    off64_t remaining = offset - file->pos * GD_SIZE(data_type);
+
+    if (remaining < 0) {
+      dreturn("%i", -1);
+      return -1;
+    }
+
+    while (remaining > 0) {
+      const unsigned len = (remaining > (off64_t)sizeof(zero)) ?
+        (unsigned)sizeof(zero) : (unsigned)remaining;
+      if (gzwrite((gzFile)file->edata, zero, len) != (int)len) {
+        dreturn("%i", -1);
+        return -1;
+      }
+      remaining -= len;
+    }
+
+    n = offset / GD_SIZE(data_type);
+    file->pos = n;
+    dreturn("%" PRId64, (int64_t)n);
+    return n;
+  }
+
   n = gd_gzseek((gzFile)file->edata, offset, SEEK_SET);
 
   if (n == -1) {
     /* some implementations of gzseek return error on attempts to seek past the
      * EOF in read mode, and set the position to the EOF. */
-    if (mode != GD_FILE_WRITE && gzeof((gzFile)file->edata))
+    if (!(mode & GD_FILE_WRITE) && gzeof((gzFile)file->edata))
       n = gd_gztell((gzFile)file->edata);
     else {
       dreturn("%i", -1);
